@@ -442,11 +442,18 @@ fn judge(scn: &Scenario, ex: &Exec) -> Verdict {
                     let b = *offset;
                     let complete: Vec<String> =
                         (0..scn.program.rules.len()).filter(|ri| rule_end(&scn.rendered, *ri) <= b).map(|ri| scn.program.rules[ri].clone()).collect();
-                    if let Some(k) = reference_kb(&complete) {
-                        allowed.push(k);
+                    let cut_rule = (0..scn.program.rules.len()).find(|ri| rule_end(&scn.rendered, *ri) > b);
+                    let fragment = cut_rule.map(|ri| joined_rule(&scn.rendered, ri, Some(b))).unwrap_or_default();
+                    // the complete rules before the cut — but only if nothing of the cut rule is left
+                    // in the file: text after the last period that is silently ignored is a rule
+                    // that went missing without an error
+                    if fragment.is_empty() {
+                        if let Some(k) = reference_kb(&complete) {
+                            allowed.push(k);
+                        }
                     }
                     // the cut rule, if what is left of it happens to be a complete rule by itself
-                    if let Some(ri) = (0..scn.program.rules.len()).find(|ri| rule_end(&scn.rendered, *ri) > b) {
+                    if let Some(ri) = cut_rule {
                         let frag = joined_rule(&scn.rendered, ri, Some(b));
                         if frag.ends_with('.') && accept_rule(&frag) {
                             let mut v = complete.clone();
